@@ -1,6 +1,6 @@
 """C04 — generated source is a faithful, self-contained compilation of the traced graph.
 
-Proof: Props/C04.lean (emit_once, emit_order, fuse_sound, compile_correct, value_computed_once obligation).
+Proof: Props/C04.lean (compile_correct_wf, compile_correct, emit_closed, visitOrder_nodup, emit_once, emit_order, fuse_sound, value_computed_once obligation).
 Tie (T-src): tools/extract/compile.py reads the switches of `get_usages`, `CodeObject.define` and the `fuse`
 loop from the source; the Lean model is parameterised by them.
 Tie (T-str): the text returned by the real `compile(graph, return_code=True)` equals the text produced by the
@@ -1016,10 +1016,13 @@ def tstr(ctx, graph, text, label, detail=None):
         return r
     ctx.count("tstr:equal")
     ck = r["ok"]["checks"]
-    for k in ("closed_order", "nodup_order", "fuse_safe", "ref_ok", "same_trace", "same_ret"):
+    for k in ("closed_order", "nodup_order", "closed_prog", "fuse_safe", "ref_ok", "same_trace", "same_ret"):
         if not ck[k]:
             ctx.count(f"checker:{k}:false")
             ctx.tie_broken(f"checker:{k}", f"{label}: premise/verdict {k} is false for\n{text}")
+    # premise of the universal theorem `compile_correct_wf`; a graph outside the class is still covered by the per-graph
+    # verdicts above, so this is counted, not flagged
+    ctx.count("checker:wf_graph:" + ("true" if ck["wf_graph"] else "false"))
     ctx.count("checker:ops-equal" if ck["prog_ops"] == ck["ref_ops"] else "checker:ops-differ")
     ctx.extra["graphs_text_equal"] = ctx.extra.get("graphs_text_equal", 0) + 1
     return r
